@@ -259,6 +259,8 @@ let run_case (x : sx) : Stdlib.String.t =
       let b = Buffer.create 256 in
       Buffer.add_string b id;
       (try
+        (* (pinned 1): parse with the grammar of the pinned tree instead of the regenerated one *)
+        let parse_path = if getf "pinned" = [A "1"] then parse_path_pinned else parse_path in
         (match parse_path cfg parse_float regex_ok path with
          | ParseErr e -> Buffer.add_string b ("\tP=" ^ render_perr e)
          | ParseCrash s -> Buffer.add_string b ("\tP=crash:" ^ hexc s)
